@@ -210,7 +210,7 @@ private:
                 }
                 else if( ch == EOF || !isspace( ch ))
                 {
-                    return;
+                    io_error( "Unexpected end of data or character in pnm file." );
                 }
             }
 
